@@ -674,6 +674,11 @@ class NetworkXPropertyGraph(ABCPropertyGraph, NetworkXMixin):
         # merge the nodes in situ
         nx.contracted_nodes(self.storage.get_graph(self.graph_id), real_node, real_other_node, copy=False)
 
+        # contracted_nodes() records edges both nodes had to a common neighbor in a
+        # 'contraction' attribute of the surviving edge - it is not a model property
+        for _, _, edge_props in self.storage.get_graph(self.graph_id).edges(real_node, data=True):
+            edge_props.pop('contraction', None)
+
         # deal with properties
         # remove all properties, including 'contracted' new property
         self.storage.get_graph(self.graph_id).nodes[real_node].clear()
